@@ -4,7 +4,7 @@ Each statement is printed by Coq itself (Check), so the file repeats every state
 Run from /verif/coq after the development has been compiled:  python3 ../tools/mkprops.py [Cxx ...]"""
 import subprocess, sys, re, os
 
-IMP = "Model Sem InvDb InvSwap InvMint InvMelt Corollaries Queries Footprint HRel Global GlobalQuote GlobalValue GlobalErr GlobalQuery GlobalMelt GlobalKeys Cuts"
+IMP = "Model Sem InvDb InvSwap InvMint InvMelt Corollaries Queries Footprint HRel Global GlobalQuote GlobalValue GlobalErr GlobalQuery GlobalMelt GlobalKeys Cuts CutOrder"
 
 GLOSSARY = """   Reading guide (definitions in coq/Mint/*.v):
      world            = store (tables spent/pending/signatures/mint quotes/melt quotes/keysets) + Lightning environment
@@ -21,6 +21,7 @@ GLOSSARY = """   Reading guide (definitions in coq/Mint/*.v):
      wext w w'        = spent and signature tables of w' extend those of w (nothing removed or altered)
      same_but_calls   = nothing changed but the call counter
      settled w h      = the backend reports the own invoice with payment hash h as settled
+     ordered b a s p  = on every path of program p (for every response, so for every fault and cut) an event `a` is preceded by an event `b`
 """
 
 PROPS = {
@@ -29,7 +30,7 @@ PROPS = {
    'reach_good', 'at_most_once', 'locked_or_spent_refused',
    'swap_rejects_represented', 'swap_rejects_duplicate', 'melt_rejects_represented']),
  'C02': ("No inflation: outstanding ecash plus Lightning outflow never exceeds inflow", [
-   'no_inflation', 'swap_balanced', 'mint_within_quote', 'melt_burns_enough', 'validated_covers',
+   'no_inflation', 'swap_cut_signatures_imply_spent', 'swap_balanced', 'mint_within_quote', 'melt_burns_enough', 'validated_covers',
    'melt_fee_limit', 'melt_fee_limit_mpp', 'request_melt_quote_fee']),
  'C03': ("A mint quote is issued at most once per payment, never before it is paid", [
    'quote_issued_at_most_once_per_payment', 'step_qinv', 'mint_needs_payment', 'mint_within_quote', 'mint_once',
@@ -43,7 +44,7 @@ PROPS = {
  'C07': ("Mint crash consistency: a crash at any point never inflates or strands value", [
    'hrun_inv', 'hrun_ext', 'only_op', 'cut_keeps_keysets', 'cut_keeps_quotes', 'cut_signs_only_when_issuing',
    'keysets_never_lost', 'quotes_never_altered', 'spent_stays_refused', 'stored_signature_stays_restorable',
-   'request_run_never_panics',
+   'request_run_never_panics', 'swap_cut_signatures_imply_spent', 'swap_ordered', 'mint_ordered', 'melt_ordered',
    'crash_in_settle_inflates', 'crash_in_swap_strands', 'crash_in_mint_strands', 'crash_in_rotate_bricks']),
  'C09': ("Keyset lifecycle: deterministic keys, one active keyset, old ecash stays valid", [
    'one_active_keyset', 'keysets_never_lost', 'cut_keeps_keysets', 'rotate_spec', 'load_spec',
